@@ -564,6 +564,9 @@ func c15Attachment(r *base.Run) {
 		{"spec-doc-inside-group-followed-by-undocumented-specs", func(a string) string {
 			return "type (\n\tW struct{ h int }\n\n\t" + a + "\n\tX struct{ f int }\n\tY struct{ g int }\n\n\tZ struct{ k int }\n)\n"
 		}, "X", typeEff},
+		{"type-spec-doc-inside-documented-group", func(a string) string {
+			return "// Model types of the package.\ntype (\n\t" + a + "\n\tX struct{ f int }\n\n\t// Y is plain.\n\tY struct{ g int }\n)\n"
+		}, "X", typeEff},
 		{"func-doc", func(a string) string { return a + "\nfunc X() {}\n" }, "X", funcEff},
 		{"method-doc", func(a string) string { return "type R struct{}\n\n" + a + "\nfunc (r *R) X() {}\n" }, "R.X", funcEff},
 		{"field-doc-immutable-struct", func(a string) string { return "// @immutable\ntype X struct {\n\t" + a + "\n\tf int\n}\n" }, "X.f", map[string]bool{"mutable": true}},
